@@ -59,10 +59,18 @@ CHECKS = {
          "exhaustive enumeration of pairs of member orders (all pairs of duplicate-free sequences over a k-symbol alphabet, for fields, methods and interfaces), all subsets of a jar-entry menu and single-difference class contents through the real dukebox::merge::merge",
          "Member-order space: all 65² (thorough 326²) pairs of duplicate-free sequences of length ≤k over k symbols as the field / method / interface lists of a class on the two sides: every member exactly once, one-sided ones carry the side annotation, shared ones none, both relative orders preserved whenever compatible. Entry space: every subset of a 14-item (thorough 20) entry menu (one-sided / identical / differing classes, resources, directories, manifests, signature files, bundled server libraries) in two entry orders and two jar representations: exactly-once, drops as stated, identical classes byte-identical, one-sided classes marked. Content space: 41 single-difference aspects of a differing class; the rest of a merged class must come from one of the sides (judged through duke's own read/write so its losses cancel).",
          "DESIGN.md §2 C13", TRUST + "; the zip crate; cfmodel"),
+ "C14": ("exploration",
+         "exhaustive enumeration of nests tables (sets of ≤3, thorough ≤4, entries over a 22-kind entry menu × 6 classes) against a fixture jar and mapping sets through the real nest_jar / apply_nests_to_mappings / undo_nests_to_mappings / remap_nests / Nests::read",
+         "Universe: four classes in the jar (two with calamus C_12 and pre-nested A__D names) and two not; every nests table of ≤3 (thorough ≤4) entries over type ∈ {inner, local, anonymous} × enclosing method ∈ {none, present, absent} × inner name ∈ {derived, custom, positive number, 0, 1LocX, 1X} × every enclosing class (chains to depth 5, missing enclosing and nested classes), also through the text form. nest_jar must rename exactly the applicable entries by the rule of their kind, transitively, rewrite every reference (fixture classes refer to every universe class at ~30 positions; compared with a reference renaming after strict parsing), add InnerClasses (+EnclosingMethod) and create missing enclosing classes; apply renames sources and descriptors the same way, undo∘apply = id; for tables whose entries all apply, jar class names = mappings source names; remap_nests keeps every nest in the target namespace. Where the statement is silent every allowed outcome is enumerated and accepted.",
+         "DESIGN.md §2 C14", TRUST + "; cfmodel; the zip crate"),
  "C15": ("exploration",
          "exhaustive product enumeration of bridge-pattern jars (hierarchy × flags × call sets × per-position signature relations × mapping states) through the real specialized_methods code (compiled from /repo/src via a #[path] shim), against the statement's predicate and outcome",
          "Jars of generated classes over a depth-3 hierarchy (parents inside the main jar, in a library jar, or nowhere; optional interface) with one candidate method in every combination of {synthetic, bridge flag, private/static/final} × 12 call sets (none, one target, same twice, two targets, indy only, array owner, …) × 19 signature relations per position (equal, erased to Object / in-jar ancestor / non-ancestor, primitive mismatch, arity ±1, void vs value) × mapping states (bridge named directly / only in a super type one or two levels up / nowhere; delegate entry named, unnamed, absent; class absent; identity and renaming official→intermediary sets): get_specialized_methods must report exactly the pairs the statement's predicate gives, and add_specialized_methods_to_mappings must give the delegate, inside the bridge's class, the name the mappings give the bridge through inheritance, every other entry unchanged (full mapping-set equality). Where the statement is silent both outcomes are accepted and counted.",
          "DESIGN.md §2 C15", TRUST + "; fbrshim's thin wrappers around the #[path]-included module; cfmodel assembler"),
+ "C16": ("fault_enumeration",
+         "complete enumeration of stated fault sets over valid seeds (every field-map entry × boundary values, truncation at every byte, pairs of faults within a structure, hand-built adversaries, all short line sequences and descriptor strings) with every case run in a sandboxed child process (rlimits, 8 MiB stack, counting allocator, CPU watchdog)",
+         "Seeds: generated kitchen-sink and module classes plus corpus classes, and Tiny v2 / tinydiff / Enigma / nests texts. Faults, each set enumerated completely: (a) every entry of the strict parser's field map (tags, counts, lengths, indices, offsets, opcodes, switch bounds) set to each width-appropriate value of 13 boundary values; (b) truncation at every byte position; (c, thorough) all pairs of structural-field faults within one structure; (d) adversaries: self-referential and cyclic bootstrap arguments, chains of 30000, element-value nesting 10^5, 10^5 brackets, tableswitch over the whole int range, ranges and frame offsets past 65535, counts promising 2^32 elements, code_length 0/65536, every instruction cut short byte by byte; (e) every sequence of ≤3 lines over 20-23 line shapes per text parser, 38 token replacements in the seeds, every string ≤5 (thorough ≤6) over the descriptor alphabet. Verdict per case ∈ {ok, err}; a panic, signal (stack overflow, abort), CPU timeout or allocation beyond 64×input+64 MiB is a violation keyed by call site; whatever read_class accepts goes through write_class. No sampling: the statement's 'random byte edits' are replaced by these complete sets.",
+         "DESIGN.md §2 C16", TRUST + "; the faultbox child runner (re-executed checker binary), its counting allocator and stack-overflow probe; cfmodel's field map"),
  "C17": ("model_checking",
          "explicit-state BFS (stateright) over visitor decision sets (deviation-bounded: interest flags off, members declined, visit_code→None) per class, and over concatenated class streams × visitor kinds, with the real read_class_multi / ClassFile::accept as transition function",
          "Masks graph: a state is (class, set of deviating visitor answers); deviations are each of the 51 interest flags over five levels, declining the class, one field / method / record component, or visit_code()=None for one method; all sets with ≤2 (thorough ≤3) deviations plus 9 all-off corners, for kitchen sinks in 3 attribute orders and the 357-class corpus. Every state runs the real reader on the class followed by junk bytes, and replays the full tree into the same visitor: received items must equal the full read filtered by the answers, in order; items after a declined one intact; cursor exactly at the class end; read result == replay result. Streams graph: concatenations of 1..3 classes × 9 visitor kinds per read: after the k-th read the cursor sits at the k-th boundary and class k was delivered.",
